@@ -282,6 +282,44 @@ theorem runMols_bad (lib : Lib) (mods muts : List Request) (mols : List Mol) (co
       obtain ⟨x, hx, e, he, hwhy⟩ := ih (counts ++ molCounts lib mods muts m) h'
       exact ⟨x, by simp [hx], e, he, hwhy⟩
 
+/-! ### the bookkeeping list does not influence marks or errors -/
+
+theorem runKind_counts_indep (lib : Lib) (m0 : Mol) (k : Kind) (l : List Request) (idx : Nat) (st st' : MolState)
+    (ha : st.atoms = st'.atoms) (he : st.err = st'.err) :
+    (runKind lib m0 k l idx st).atoms = (runKind lib m0 k l idx st').atoms ∧
+    (runKind lib m0 k l idx st).err = (runKind lib m0 k l idx st').err := by
+  induction l generalizing idx st st' with
+  | nil => exact ⟨ha, he⟩
+  | cons rq rest ih =>
+    unfold runKind
+    cases hs : st.err with
+    | some e =>
+      have hs' : st'.err = some e := by rw [← he, hs]
+      rw [hs']
+      simp only
+      exact ⟨ha, by rw [hs, hs']⟩
+    | none =>
+      have hs' : st'.err = none := by rw [← he, hs]
+      rw [hs']
+      simp only
+      rw [← ha]
+      cases resiter lib m0 k rq st.atoms with
+      | error e => simp
+      | ok r => simp only; exact ih _ _ _ rfl rfl
+
+theorem annotateMol_counts_indep (lib : Lib) (mods muts : List Request) (m : Mol) (c c' : List Count) :
+    (annotateMol lib mods muts m c).atoms = (annotateMol lib mods muts m c').atoms ∧
+    (annotateMol lib mods muts m c).err = (annotateMol lib mods muts m c').err := by
+  unfold annotateMol
+  split
+  · exact ⟨rfl, rfl⟩
+  · split
+    · exact ⟨rfl, rfl⟩
+    · simp only
+      obtain ⟨h1, h2⟩ := runKind_counts_indep lib m .modification mods 0
+        { atoms := m.atoms, counts := c, err := none } { atoms := m.atoms, counts := c', err := none } rfl rfl
+      exact runKind_counts_indep lib m .mutation muts 0 _ _ h1 h2
+
 /-! ### the report -/
 
 def Count.toReport (c : Count) : Report := { mutmod := c.mutmod, kind := c.kind, post := c.post }
